@@ -311,4 +311,12 @@ theorem find?_map_of_comm {α} (l : List α) (g : α → α) (p : α → Bool) (
     · rfl
     · exact ih
 
+theorem findBlock_mem {f : Func} {b : BlockId} {B : Block} (h : f.findBlock b = some B) :
+    B ∈ f.blocks ∧ B.id = b ∧ B.invalid = false := by
+  simp only [Func.findBlock] at h
+  have h1 := List.mem_of_find?_eq_some h
+  have h2 := List.find?_some h
+  simp only [decide_eq_true_eq] at h2
+  exact ⟨h1, h2.1, by simpa using h2.2⟩
+
 end Wz.Model.SsaPass
